@@ -238,6 +238,19 @@ class DetectReadsWritesCalls( DetectVarNames ):
     self.write = write
     self.calls = calls
     self.current_op = None
+
+    # A name bound inside the block (loop variable, temporary variable) is
+    # local to it and shadows a module-level name: an index written with
+    # such a name is a variable index, not the value of the global.
+    local = set()
+    for x in ast.walk( node ):
+      if   isinstance( x, ast.For ):    targets = [ x.target ]
+      elif isinstance( x, ast.Assign ): targets = x.targets
+      else:                             continue
+      local.update( t.id for t in targets if isinstance( t, ast.Name ) )
+    if local:
+      self.globals = { k for k in self.globals if k not in local }
+
     self.visit( node )
 
   def visit_Assign( self, node ):
